@@ -329,4 +329,6 @@ def run(ctx) -> None:
     ctx.guard(r17_2_5)
     ctx.guard(r17_3)
     ctx.guard(r17_4)
+    from .c04 import r04_2
+    ctx.guard_as("R17.7", r04_2)  # compress-before-encrypt / decompress-after-decrypt under one condition, on the caller's plaintext
     ctx.assume("zlib honours max_length (peak memory bounded by its documentation) and sets eof at the end of a complete stream")
